@@ -12,7 +12,7 @@ import signal
 import sys
 import time
 
-from . import core, attach
+from . import core, attach, reach
 
 
 def _on_timer(signum, frame):
@@ -35,6 +35,7 @@ def run(spec):
         concepts = attach.load(spec['repo'])
         mod = importlib.import_module('rv.props.' + prop.lower())
         mod.setup(concepts, spec)
+        reach.install(spec['repo'])
     except core.HarnessError as e:
         col.harness_error('setup', e)
         result['status'] = 'setup-failed'
@@ -115,7 +116,7 @@ def run(spec):
         col.harness_error('finish', e)
     col.count('cases', n_cases)
     result.update(col.dump(), wall_s=time.time() - t0, slow_cases=sorted(slow, reverse=True)[:6],
-                  bindings=attach.bindings(),
+                  bindings=attach.bindings(), reach=reach.dump(),
                   concepts_file=getattr(sys.modules.get('concepts'), '__file__', None))
     return result
 
